@@ -123,6 +123,19 @@ func c15() {
 		{kind: "prctl-fails-EPERM", policy: str(validYAML), pre: []string{"strace", "-f", "-o", "/dev/null", "-e", "trace=prctl", "-e", "inject=prctl:error=EPERM"}, args: std()},
 		{kind: "prctl-fails-EINVAL-no-new-privs-flag", policy: str(validYAML), pre: []string{"strace", "-f", "-o", "/dev/null", "-e", "trace=prctl", "-e", "inject=prctl:error=EINVAL"}, args: std("-no-new-privs=true")},
 	}
+	// the same defects far into a large file: comment lines are legal YAML, so a
+	// policy file can have any size; what follows the padding must still count
+	pad := func(n int) string {
+		line := "# " + strings.Repeat("padding ", 12) + "\n"
+		return strings.Repeat(line, n/len(line)+1)
+	}
+	for _, sz := range []int{5000, 66000, 200000, 1 << 20} {
+		faults = append(faults,
+			fault{kind: fmt.Sprintf("unknown-syscall-after-%d-bytes", sz), policy: str(validYAML + pad(sz) + "  - action: errno\n    names:\n    - no_such_syscall\n"), args: std()},
+			fault{kind: fmt.Sprintf("malformed-after-%d-bytes", sz), policy: str(validYAML + pad(sz) + "  - action: [unclosed\n"), args: std()},
+			fault{kind: fmt.Sprintf("unknown-action-after-%d-bytes", sz), policy: str(validYAML + pad(sz) + "  - action: deny\n    names:\n    - getuid\n"), args: std()},
+		)
+	}
 	var mu sync.Mutex
 	byKind := map[string]int64{}
 	distinct := map[string]bool{}
@@ -204,7 +217,38 @@ func c15() {
 		os.MkdirAll(dir, 0o755)
 		defer os.RemoveAll(dir)
 		pp := filepath.Join(dir, "seccomp.yml")
+		// every fifth policy gets a final group of its own that decides about a probe no
+		// earlier group mentions, and the file is padded with comment lines in front of
+		// that group to a size from {5 kB, 66 kB, 200 kB, 1 MiB}: the end of a large file
+		// must be installed as well
+		padTo := 0
+		if i%5 == 3 {
+			used := map[string]bool{}
+			for _, g := range spec.Groups {
+				for _, n := range g.Names {
+					used[n] = true
+				}
+				for _, e := range g.With {
+					used[e.Name] = true
+				}
+			}
+			for _, n := range probes {
+				if !used[n] {
+					spec.Groups = append(spec.Groups, vlib.GroupSpec{Names: []string{n}, Action: vlib.RetErrno})
+					p = spec.Policy()
+					comp = vlib.Compile(spec.Policy(), t)
+					ref = vlib.NewRef(spec.Policy(), t)
+					padTo = []int{5000, 66000, 200000, 1 << 20}[(i/5)%4]
+					break
+				}
+			}
+		}
 		yamlText := handYAML(r, spec)
+		if padTo > 0 {
+			k := strings.LastIndex(yamlText, "  - action:")
+			yamlText = yamlText[:k] + pad(padTo) + yamlText[k:]
+			run.Count("valid_runs_with_padded_large_file", 1)
+		}
 		os.WriteFile(pp, []byte(yamlText), 0o644)
 		cc := &vlib.ChildCase{}
 		for _, pr := range probeEventsFor(r, p, t, probes, false, 120) {
@@ -289,9 +333,10 @@ func c15() {
 		run.Require("fault_runs", int64(len(faults)))
 		run.Require("valid_runs", int64(n*8/10))
 		run.Require("probes_compared_in_targets", 500)
+		run.Require("valid_runs_with_padded_large_file", 5)
 	}
 	run.Finish(run.Counter("fault_runs")+run.Counter("valid_runs"), int64(len(distinct)),
-		"the built cmd/sandbox with a probing target: every invalid-file kind (missing, directory, empty, not YAML, unknown action/operation/syscall, bad argument index, duplicate, no groups, no default), kernel refusal by an oversize policy and by strace-injected failures of seccomp(2) (EINVAL, EACCES, ENOSYS, positive thread id) and prctl(2), missing target; valid PRNG policies rendered to YAML with -no-new-privs on/off and argv variants, probe outcomes inside the exec'ed target compared with the reference semantics; distinct = fault kinds + (style, groups, nnp, argv variant)")
+		"the built cmd/sandbox with a probing target: every invalid-file kind (missing, directory, empty, not YAML, unknown action/operation/syscall, bad argument index, duplicate, no groups; the same defects behind 5 kB..1 MiB of comment padding), kernel refusal by an oversize policy and by strace-injected failures of seccomp(2) (EINVAL, EACCES, ENOSYS, positive thread id) and prctl(2), missing target; valid PRNG policies rendered to YAML with -no-new-privs on/off and argv variants, probe outcomes inside the exec'ed target compared with the reference semantics; distinct = fault kinds + (style, groups, nnp, argv variant)")
 }
 
 // c15Shipped runs cmd/sandbox/seccomp.yml: connect(2) and clone(CLONE_NEWUSER unset) must be denied.
